@@ -1,13 +1,16 @@
 (* C19 — coin selection returns only valid selections and coin-set totals never drift.
    Only statements; every proof is `exact <lemma proved elsewhere>`.
 
-   Arithmetic.  The coin-set theorems hold for Go's wrapping int64 arithmetic (w64) as well as
-   for exact integers.  The selector theorems are stated for exact integers (wx): they assume
-   that no int64 operation of the selector overflows (sufficient: values in [0, 21e14], and
-   |target| + |minChange| + sum of values, and (|MinAvg| + max value-age) * (len + 1), below 2^62).
+   Arithmetic.  The coin-set theorems hold for Go's wrapping int64 arithmetic (w64).  The selector
+   theorems are stated for exact integers (wx); C19_selectors_no_overflow proves that inside the
+   bounds [inb] (values and confirmations >= 0, sum of values <= 2^62 around the target,
+   |minChange| <= 2^61, sum of value-ages <= 2^61, -2^61 <= MinAvg and MinAvg*(len+1) <= 2^61)
+   the int64 model (w64, the instance compared with the Go code on every run) computes exactly the
+   same results for all four selectors, so no int64 operation wraps and the theorems apply to it
+   (C19_minprio_valid_int64 spells this out for the priority selector).
    sort.Sort is a dependency: any function meeting [sort_spec] (a permutation of its input,
    sorted whenever Less is a strict weak order); it need not be stable. *)
-From BU Require Import Lib.Bytes CoinSet.CoinSet CoinSet.CoinSetProofs CoinSet.SelectorProofs CoinSet.MinPrioProofs.
+From BU Require Import Lib.Bytes CoinSet.CoinSet CoinSet.CoinSetProofs CoinSet.SelectorProofs CoinSet.TieProofs CoinSet.MinPrioProofs CoinSet.WrapProofs.
 From Coq Require Import Permutation Sorted.
 Open Scope Z_scope.
 
@@ -145,6 +148,41 @@ Example C19_minprio_example :
             /\ map cid (cs_list s) = [3; 2; 0]%N /\ Forall (fun c => 0 <= va wx c) w15c.
 Proof. eexists. split; [vm_compute; reflexivity|]. split; [reflexivity|]. repeat constructor; vm_compute; discriminate. Qed.
 Print Assumptions C19_minprio_example.
+
+(* tie-breaking of the unstable sort cannot change what MinNumber achieves (value sequence, total,
+   count, success); for MaxValueAge it can, which is why the theorems quantify over the permutation *)
+Theorem C19_min_number_tie_independent : forall sa sb, sort_spec sa -> sort_spec sb -> forall maxin mc target coins,
+  same_outcome (min_number wx sa maxin mc target coins) (min_number wx sb maxin mc target coins).
+Proof. exact min_number_tie_independent. Qed.
+Print Assumptions C19_min_number_tie_independent.
+
+(* inside the bounds no int64 operation of any selector wraps: the int64 model and the exact model
+   agree ([sort_local]: the sort looks at its elements only through Less) *)
+Theorem C19_selectors_no_overflow : forall sort_by, sort_spec sort_by -> sort_local sort_by ->
+  forall maxin mc minavg target coins, inb mc minavg target coins ->
+    min_index w64 maxin mc target coins = min_index wx maxin mc target coins
+    /\ min_number w64 sort_by maxin mc target coins = min_number wx sort_by maxin mc target coins
+    /\ max_value_age w64 sort_by maxin mc target coins = max_value_age wx sort_by maxin mc target coins
+    /\ min_priority_sel w64 sort_by maxin mc minavg target coins = min_priority_sel wx sort_by maxin mc minavg target coins.
+Proof. exact selectors_agree. Qed.
+Print Assumptions C19_selectors_no_overflow.
+
+Theorem C19_minprio_valid_int64 : forall sort_by, sort_spec sort_by -> sort_local sort_by ->
+  forall maxin mc minavg target coins br s,
+  inb mc minavg target coins ->
+  min_priority_sel w64 sort_by maxin mc minavg target coins = (br, Ok s) ->
+  valid_selection maxin mc target coins s
+  /\ minavg * cs_num s <= sumva wx (cs_list s)
+  /\ minavg <= Z.quot (sumva wx (cs_list s)) (cs_num s).
+Proof. exact minprio_valid_w64. Qed.
+Print Assumptions C19_minprio_valid_int64.
+
+Example C19_bounds_inhabited :
+  sort_local isort
+  /\ inb 1000 100000000 35000000
+      [mkCoin 0 100000000 1; mkCoin 1 10000000 0; mkCoin 2 50000000 0; mkCoin 3 25000000 3; mkCoin 4 5000000 7].
+Proof. exact (conj isort_local inb_example). Qed.
+Print Assumptions C19_bounds_inhabited.
 
 (* the hypotheses are satisfiable: the insertion sort used by the run driver meets sort_spec *)
 Example C19_sort_spec_inhabited : sort_spec isort.
